@@ -380,6 +380,90 @@ def r9(ctx):
         raise AnalysisBroken('C20.R9: only %d field deletions found' % n)
 
 
+def r13(ctx):
+    ctx.rule('C20.R13', 'sentinel agreement: a local that is initialised or assigned a "no value" constant (UINT_MAX, SIZE_MAX / '
+             'npos, ...) and tested for one with == or != uses the same constant at both places; with two different maxima '
+             '(e.g. npos stored, UINT_MAX tested on a 64 bit target) the test never fires and the guarded index or length is used '
+             'as if it were valid', minimum=3)
+    fb = ctx.fb
+    n = 0
+    big = lambda v: v is not None and (v >= 0x7fffffff or v == -1)
+    for fn in fb.functions:
+        if not in_scope(fn) or not fn.blocks:
+            continue
+        assigned = {}
+        nonconst = set()
+        for nid, d, rhs, op, lhs in fn.assignments():
+            if not d or d.startswith('this.') or rhs is None or op not in ('init', '='):
+                continue
+            v = fn.val(rhs)
+            if big(v):
+                assigned.setdefault(d, set()).add(v & 0xffffffffffffffff)
+        tested = {}
+        for x in fn.all('BinaryOperator'):
+            v = fn.nodes[x]
+            if v.get('op') not in ('==', '!='):
+                continue
+            for a_, b_ in ((v['lhs'], v['rhs']), (v['rhs'], v['lhs'])):
+                d = fn.ref_decl(a_)
+                c = fn.val(b_)
+                if d and big(c) and fn.nodes.get(fn.strip(a_, casts=True), {}).get('rk') in ('local', 'param'):
+                    tested.setdefault(d, []).append((x, c & 0xffffffffffffffff))
+        for d, tests in sorted(tested.items()):
+            if d not in assigned:
+                continue        # the sentinel comes from a callee (find() -> npos): nothing to compare here
+            n += 1
+            ctx.touch(fn)
+            bad = [(x, c) for x, c in tests if c not in assigned[d]]
+            ctx.ob('C20.R13', fn, tests[0][0], not bad, 'sentinel of %s in %s' % (d.split(':')[-1], fn.name.split('::')[-1]),
+                   'assigned %s, tested against %s' % (sorted(hex(v) for v in assigned[d]), sorted(set(hex(c) for x, c in tests))))
+    if n < 3:
+        raise AnalysisBroken('C20.R13: only %d sentinel variables found' % n)
+
+
+def r14(ctx):
+    ctx.rule('C20.R14', 'where a length is clamped to what is available ("if (len > avail) len = avail") every unsigned difference '
+             'avail - len (or avail - x with x counted down from len) in that function is reached only through the clamp: a '
+             'difference that can be taken without it wraps around to a huge offset or loop count', minimum=1)
+    fb = ctx.fb
+    n = 0
+    for fn in fb.functions:
+        if not in_scope(fn) or not fn.blocks:
+            continue
+        # clamps: assignment Y = X whose guards contain (X < Y) true
+        for nid, d, rhs, op, lhs in fn.assignments():
+            if op != '=' or not d or d.startswith('this.') or rhs is None:
+                continue
+            xk = fn.key(rhs)
+            yk = d.split(':')[-1]
+            xd = fn.ref_decl(rhs)
+            if xd is None or xd == d:
+                continue
+            atoms = set((a[0], a[1]) for a in fn.atoms(nid))
+            if ('(%s < %s)' % (xk, yk), True) not in atoms and ('(%s <= %s)' % (yk, xk), False) not in atoms:
+                continue
+            # the if-statement around the clamp
+            test = [b.id for b in fn.blocks.values() if b.cond is not None and
+                    fn.key(fn.effective_cond(b.id)) in ('(%s > %s)' % (yk, xk), '(%s < %s)' % (xk, yk), '(%s >= %s)' % (yk, xk))]
+            if not test:
+                continue
+            # variables counted down from Y
+            derived = {d}
+            for n2, d2, r2, o2, l2 in fn.assignments():
+                if o2 == 'init' and d2 and r2 is not None and fn.ref_decl(r2) == d:
+                    derived.add(d2)
+            diffs = [x for x in fn.all('BinaryOperator') if fn.nodes[x].get('op') == '-' and fn.ref_decl(fn.nodes[x]['lhs']) == xd and
+                     fn.ref_decl(fn.nodes[x]['rhs']) in derived and not fn.nodes[x].get('sg')]
+            for x in diffs:
+                n += 1
+                ctx.touch(fn)
+                free = fn.block_of(x) in fn.reach([fn.entry], cut_blocks=test)
+                ctx.ob('C20.R14', fn, x, not free, 'unsigned difference %s in %s' % (fn.key(x), fn.name.split('::')[-1]),
+                       'reached only through the clamp of %s to %s: %s' % (yk, xk, not free))
+    if n < 1:
+        raise AnalysisBroken('C20.R14: no clamped length with a dependent unsigned difference found')
+
+
 def r7(ctx):
     ctx.rule('C20.R7', 'the name index of the message map uses one key schema: add(), remove() and find() derive the direction '
              'suffix of a name key with the same decision order (passive -> "P", else write -> "W", else "R"); a disagreement '
@@ -422,6 +506,8 @@ def run(ctx):
     r6(ctx)
     r7(ctx)
     r9(ctx)
+    r13(ctx)
+    r14(ctx)
     import rules.C14 as c14
     ctx.borrow(c14.r7, {'C14.R7': 'C20.R8'},
                'the sizes handed to ::read and memmove in the byte transport are bounded by the buffer capacity and the '
